@@ -436,6 +436,18 @@ pub fn gen_tblbig(r: &mut Rng, tier: &str, emit: &mut dyn FnMut(String)) {
         emit(format!("{} ; isa/-/{}/-/-", header(r, "rhct"), hex(&vec![b'a'; l])));
         emit(format!("{} ; platform/1,0/{}/-/-", header(r, "rimt"), hex(&vec![b'n'; l.saturating_sub(10)])));
     }
+    // exact boundaries of the 16-bit device length: 13 + name = 65535 / 65536, alone and with id mappings
+    for l in [65521usize, 65522, 65523, 65524] {
+        emit(format!("{} ; platform/1,0/{}/-/-", header(r, "rimt"), hex(&vec![b'n'; l])));
+    }
+    for l in [21usize, 22, 23, 24] {
+        let ms: Vec<String> = (0..3275u64).map(|i| format!("{}.{}.1.#0.0.1.0", i, i)).collect();
+        emit(format!("{} ; iommu/1,0,0,0,0,0,0,0,0,0,0/-/-/- ; platform/2,1/{}/{}/-", header(r, "rimt"), hex(&vec![b'n'; l]), ms.join(";")));
+    }
+    // every vendor-resource size in a window around the 16-bit resource / controller length limits
+    for blob in (65486usize..=65510).chain(65520..=65530) {
+        emit(format!("{} ; qosctrl/0,0,64,0,4,4096,1,2,3/{}/0.0.4.200.0/-", header(r, "rqsc"), hex(&vec![7u8; blob])));
+    }
     for nc in [16380u64, 16381, 16382, 16383, 20000] {
         let cs: Vec<String> = (0..nc).map(|_| "cmo=#0".to_string()).collect();
         emit(format!("{} ; isa/-/{}/-/- ; cmo/1,2,3/-/-/- ; hart/5,#0/-/-/{}", header(r, "rhct"), hex(b"rv64"), cs.join(",")));
